@@ -59,6 +59,11 @@ func c16BuildTree(root string, which int) {
 		os.Symlink("../b", filepath.Join(root, "a/b/self"))
 		os.Link(filepath.Join(root, "a/b/c/f"), filepath.Join(root, "a/hl"))
 		os.Mkdir(filepath.Join(root, "empty-dir"), 0o500)
+		// special files (made only where the host lets us): a socket, a block and a character device
+		syscall.Mknod(filepath.Join(root, "sock"), syscall.S_IFSOCK|0o644, 0)
+		syscall.Mknod(filepath.Join(root, "blk"), syscall.S_IFBLK|0o600, 7<<8)
+		syscall.Mknod(filepath.Join(root, "chr"), syscall.S_IFCHR|0o666, 1<<8|3)
+		syscall.Mknod(filepath.Join(root, "a", "b", "sock2"), syscall.S_IFSOCK|0o600, 0)
 	}
 }
 
@@ -262,7 +267,7 @@ func c16Scenario(tree int, dotu bool, maxK int, ancestors bool) Scenario {
 									qidPaths[sd.Stat.Qid.Path] = full
 									// the fid keeps designating the same object once it is open (the open
 									// follows a symbolic link, the fid does not)
-									if a == 0 && !inplace {
+									if a == 0 && !inplace && n.lstat.Mode()&(os.ModeDevice|os.ModeSocket|os.ModeNamedPipe|os.ModeCharDevice) == 0 {
 										if ro := cl.Rpc(&wire.Msg{Type: wire.Topen, Tag: 5, Fid: dst, Mode: 0}); ro != nil && ro.Type == wire.Ropen {
 											res.Evals++
 											if so := statOf(dst); so == nil || so.Type != wire.Rstat {
@@ -488,7 +493,7 @@ func c16Scenarios(tier string) []Scenario {
 func init() {
 	register(&Property{ID: "C16", Level: "exploration",
 		Technique: "bounded-exhaustive enumeration of walks and stats over constructed trees against the real Ufs, compared with os.Lstat",
-		Rule:      "4 constructed trees (files, directories, symlinks to file/dir/dangling, hard links, names with spaces, dots, non-ASCII and non-UTF-8 bytes, 255-byte names, a 40-level chain, modes 0000-0777, a >4 GiB sparse file); for every node and k in 0..1 (thorough 4) missing trailing elements: the walk from the root (and from every ancestor) as one Twalk (<= 16 elements) to a new fid and in place, Tstat of both fids afterwards and again once the new fid is open, stat of every node in both dialects, every element list of length <= 4 (thorough 5) with '..' behind symbolic links to directories compared with the host's own resolution, Clnt.FStat of every path and of a missing child; every element list of length <= 3 (thorough 4) over a tree with unsearchable and unlistable directories, served by an ordinary user, compared with that user's lstat. non-trivial = walks/stats compared",
+		Rule:      "4 constructed trees (files, directories, symlinks to file/dir/dangling, hard links, names with spaces, dots, non-ASCII and non-UTF-8 bytes, 255-byte names, a 40-level chain, a socket, a block and a character device node, modes 0000-0777, a >4 GiB sparse file); for every node and k in 0..1 (thorough 4) missing trailing elements: the walk from the root (and from every ancestor) as one Twalk (<= 16 elements) to a new fid and in place, Tstat of both fids afterwards and again once the new fid is open, stat of every node in both dialects, every element list of length <= 4 (thorough 5) with '..' behind symbolic links to directories compared with the host's own resolution, Clnt.FStat of every path and of a missing child; every element list of length <= 3 (thorough 4) over a tree with unsearchable and unlistable directories, served by an ordinary user, compared with that user's lstat. non-trivial = walks/stats compared",
 		Assumptions: []string{"the host file system and os.Lstat are the reference; one scenario serves a tree with unsearchable directories with the effective ids of an ordinary user, the others run as the sandbox user", "random trees of the quantifier are sampling and not claimed"},
 		Scenarios:   c16Scenarios, QuickS: 100, ThoroughS: 600})
 }
